@@ -22,9 +22,9 @@ scaling is the identity.  outside_standardize only multiplies each outside row b
 and InsideOutsideMethod.run() normalises every posterior row afterwards, so it must not
 change the posterior (it is drawn, and not alarmed on).
 
-Calibration on the unchanged tree (4 x 700 generated cases + 1 200 enumerated, seeds 1..5):
-worst |posterior - exact| = 1.2e-15 (tolerance 1e-10), worst relative error of Z = 2.5e-15,
-of log Z (relative to max(1,|log Z|)) = 1.8e-15 (tolerance 1e-9).
+Calibration on the unchanged tree (quick tier, seeds 1..5, ~5 400 cases each incl. 1 791
+enumerated): worst |posterior - exact| = 2.5e-14 (tolerance 1e-10), worst relative error of Z /
+error of log Z relative to max(1,|log Z|) = 3.9e-14 (tolerance 1e-9).
 """
 
 import sys
@@ -104,9 +104,10 @@ def strategy_(draw, tier):
         cache_inside=draw(st.booleans()),
         outside_standardize=draw(st.sampled_from([True, False, None])),
         # num_threads >= 2 starts a multiprocessing pool (1.3-2.3 s per call measured, more in a
-        # forked shard on a busy machine): thorough tier only, ~0.3 % of cases
-        num_threads=draw(st.integers(0, 999).map(
-            lambda i: None if i < 600 else (2 if (i >= 997 and tier == "thorough") else 1))),
+        # forked shard on a busy machine): thorough tier only, ~0.3 % of cases (an interior value
+        # of the range is used because Hypothesis over-samples the ends of integer ranges)
+        num_threads=(2 if (tier == "thorough" and draw(st.integers(0, 299)) == 137)
+                     else draw(st.sampled_from([None, None, None, 1, 1]))),
         api=draw(st.sampled_from(["inside_outside", "inside_outside", "date"])),
     )
     if prior_kind == "built_int":
